@@ -213,10 +213,14 @@ def d3_difference(ctx, rid='D3'):
                 ctx.finding(rid, 'to_duration/operands', "'A to B' subtracts %s from %s; expected the two stored %s values themselves" % (r[:70], l[:70], 'date/time'), site=b.loc)
                 continue
             kind = m1.group(1)
-            gt = [cond_str(d, vv) for d, vv in c2 if 'PartialOrd' in render(d) or ' Gt ' in render(d) or ' Lt ' in render(d)]
-            want_true = 'PartialOrd::gt(%s, %s)!=[0]' % (l, r)
-            want_false = 'PartialOrd::gt(%s, %s)=[0]' % (r, l)
-            if want_true in gt or want_false in gt:
+            gt = [cond_str(d, vv) for d, vv in c2 if 'PartialOrd' in render(d) or re.search(r' (Gt|Lt|Ge|Le) ', render(d))]
+            # any comparison that implies l >= r on this branch
+            implied = []
+            for fn, a1, a2, truth in (('gt', l, r, True), ('ge', l, r, True), ('lt', r, l, True), ('le', r, l, True),
+                                      ('gt', r, l, False), ('ge', r, l, False), ('lt', l, r, False), ('le', l, r, False)):
+                implied.append('PartialOrd::%s(%s, %s)%s' % (fn, a1, a2, '!=[0]' if truth else '=[0]'))
+                implied.append('(%s %s %s)%s' % (a1, fn.capitalize(), a2, '!=[0]' if truth else '=[0]'))
+            if any(g in implied for g in gt):
                 seen.add((kind, m1.group(2)))
                 ctx.ok(rid, '%s: %s - %s when it is the larger' % (kind, m1.group(2), m2.group(2)), 'gamma', site=b.loc)
             else:
